@@ -1,1 +1,393 @@
+(* Proofs about the server request-layer model (C02). *)
+From Coq Require Import List NArith Bool Lia ZifyBool ZifyNat ZifyN.
+From GVL Require Import NList.
+From GVG Require Import Consts.
 From GV_serversm Require Import Model.
+Import ListNotations.
+Open Scope N_scope.
+
+(* ---------- status constants (re-checked against the regenerated Consts.v on every build) ---------- *)
+Lemma sOK_val : sOK = 200. Proof. reflexivity. Qed.
+Lemma sBad_val : sBad = 400. Proof. reflexivity. Qed.
+Lemma sNoSess_val : sNoSess = 454. Proof. reflexivity. Qed.
+Lemma sUnsupp_val : sUnsupp = 461. Proof. reflexivity. Qed.
+Lemma sNotImpl_val : sNotImpl = 501. Proof. reflexivity. Qed.
+Lemma st_codes : map st_code [Initial; PrePlay; Play; PreRecord; Record] = [0; 1; 2; 3; 4].
+Proof. reflexivity. Qed.
+
+Ltac brk H :=
+  repeat match type of H with
+  | context [if ?b then _ else _] => let E := fresh "E" in destruct b eqn:E
+  | context [match ?x with _ => _ end] => let E := fresh "E" in destruct x eqn:E
+  end.
+
+(* ---------- the handler against the RFC machine ---------- *)
+Definition rfc_after (s0 : st) (m : meth) (status : N) : st :=
+  if (status =? sOK) && Rfc2326.allowed s0 m then Rfc2326.next s0 m else s0.
+
+(* the one path on which the handler changes the state and answers with an error *)
+Definition start_failure (r : req) (s : session) : bool :=
+  meth_eqb (rmeth r) RecordM && st_eqb (sstate s) PreRecord && (vstatus r =? sOK)
+  && (match stransport s with Some UDP => true | _ => false end) && start_fails (smedias s).
+
+Ltac negs :=
+  repeat match goal with
+  | E : negb _ = true |- _ => apply negb_true_iff in E
+  | E : negb _ = false |- _ => apply negb_false_iff in E
+  end.
+
+Lemma handle_state cf o c r s s' status e :
+  handle cf o c r s = HOk s' status e ->
+  (sstate s' = rfc_after (sstate s) (rmeth r) status
+   \/ (start_failure r s = true /\ sstate s' = Record /\ status = sBad /\ e = EFatal)).
+Proof.
+  unfold handle, fail400, rfc_after, start_failure, destroy_writer, streaming. intros H.
+  destruct (pin_reject c s); [inversion H; subst; left; destruct (sstate s'), (rmeth r); reflexivity|].
+  destruct (rmeth r) eqn:Em; destruct (sstate s) eqn:Es; cbn [st_eqb negb andb orb] in H.
+  all: brk H; try discriminate; inversion H; subst; clear H; cbn.
+  all: rewrite ?orb_true_r, ?orb_false_r, ?andb_true_r, ?andb_false_r in *; try discriminate; negs.
+  all: try (left; reflexivity).
+  all: rewrite ?Es; cbn.
+  all: try (left; repeat match goal with E : (_ =? _) = _ |- _ => rewrite ?E; clear E end; reflexivity).
+  all: try (left; repeat match goal with |- context [if ?b then _ else _] => destruct b end; reflexivity).
+  all: try (right; match goal with p : proto |- _ => destruct p end; cbn in *; try discriminate; repeat split; assumption).
+Qed.
+
+Lemma handle_illegal cf o c r s s' status e :
+  handle cf o c r s = HOk s' status e ->
+  Rfc2326.allowed (sstate s) (rmeth r) = false ->
+  status = sBad /\ s' = s /\ e = EFatal.
+Proof.
+  unfold handle, fail400. intros H A.
+  destruct (pin_reject c s); [inversion H; auto|].
+  destruct (rmeth r) eqn:Em; destruct (sstate s) eqn:Es; cbn in A; try discriminate;
+    unfold streaming in H; rewrite ?Es in H; cbn [st_eqb negb andb orb] in H; inversion H; auto.
+Qed.
+
+Lemma handle_frame cf o c r s s' status e :
+  handle cf o c r s = HOk s' status e ->
+  salive s' = salive s /\ sconns s' = sconns s /\ saip s' = saip s.
+Proof.
+  unfold handle, fail400, destroy_writer, streaming. intros H.
+  destruct (pin_reject c s); [inversion H; auto|].
+  destruct (rmeth r) eqn:Em; destruct (sstate s) eqn:Es; cbn [st_eqb negb andb orb] in H.
+  all: brk H; try discriminate; inversion H; subst; clear H; cbn; auto.
+Qed.
+
+(* ---------- list plumbing ---------- *)
+Lemma map_nset {A B} (f : A -> B) k y l : map f (nset k y l) = nset k (f y) (map f l).
+Proof.
+  revert k; induction l as [|x t IH]; intros k; cbn [nset map]; [reflexivity|].
+  destruct (k =? 0); cbn [map]; [reflexivity|]. now rewrite IH.
+Qed.
+Lemma nset_same {A} k (x : A) l : nnth k l = Some x -> nset k x l = l.
+Proof.
+  revert k; induction l as [|y t IH]; intros k H; cbn [nset nnth] in *; [reflexivity|].
+  destruct (k =? 0); [now inversion H|]. now rewrite IH.
+Qed.
+Lemma nnth_map {A B} (f : A -> B) k l : nnth k (map f l) = option_map f (nnth k l).
+Proof.
+  revert k; induction l as [|y t IH]; intros k; cbn [map nnth]; [reflexivity|].
+  destruct (k =? 0); [reflexivity|]. apply IH.
+Qed.
+Lemma nset_app_last {A} (l : list A) x y : nset (nlen l) y (l ++ [x]) = l ++ [y].
+Proof.
+  induction l as [|z t IH]; cbn [nlen app nset]; [reflexivity|].
+  destruct (N.eqb_spec (N.succ (nlen t)) 0); [lia|]. now rewrite N.pred_succ, IH.
+Qed.
+Lemma nset_nset {A} k (x y : A) l : nset k y (nset k x l) = nset k y l.
+Proof.
+  revert k; induction l as [|z t IH]; intros k; cbn [nset]; [reflexivity|].
+  destruct (k =? 0) eqn:E; cbn [nset]; rewrite E; [reflexivity|]. now rewrite IH.
+Qed.
+
+Definition pst (sv : server) : list st := map sstate (sessions sv).
+
+Lemma pst_set_conn c x sv : pst (set_conn c x sv) = pst sv.
+Proof. reflexivity. Qed.
+
+Lemma pst_set_same k s s' sv :
+  nnth k (sessions sv) = Some s -> sstate s' = sstate s -> pst (set_sess k s' sv) = pst sv.
+Proof.
+  intros H E. unfold pst, set_sess; cbn [sessions]. rewrite map_nset, E.
+  apply nset_same. now rewrite nnth_map, H.
+Qed.
+
+Lemma end_session_pst k w sv : pst (fst (end_session k w sv)) = pst sv.
+Proof.
+  unfold end_session. destruct (nnth k (sessions sv)) eqn:E; [|reflexivity].
+  destruct (salive s); [|reflexivity]. cbn [fst]. unfold pst; cbn [sessions].
+  rewrite map_nset. cbn [sstate]. apply nset_same. now rewrite nnth_map, E.
+Qed.
+
+Lemma end_session_pst' k w sv sv' evs : end_session k w sv = (sv', evs) -> pst sv' = pst sv.
+Proof. intros H. rewrite <- (end_session_pst k w sv), H. reflexivity. Qed.
+
+Lemma close_conn_pst c sv sv' evs : close_conn c sv = Some (sv', evs) -> pst sv' = pst sv.
+Proof.
+  unfold close_conn. intros H.
+  destruct (nnth c (conns sv)) as [x|]; [|inversion H; reflexivity].
+  destruct (copen x); cbn [negb] in H; [|inversion H; reflexivity].
+  destruct (csess x) as [k|]; [|inversion H; reflexivity].
+  rewrite pst_set_conn || idtac.
+  destruct (nnth k (sessions (set_conn c _ sv))) as [s|] eqn:Ek; [|inversion H; reflexivity].
+  destruct (salive s); cbn [negb] in H; [|inversion H; reflexivity].
+  match type of H with context [set_sess k ?s2 ?sv1] =>
+    assert (P : pst (set_sess k s2 sv1) = pst sv) by (rewrite (pst_set_same k s s2 sv1 Ek eq_refl); reflexivity)
+  end.
+  destruct (streaming s).
+  - destruct (stransport s); [|discriminate].
+    destruct (_ && _); inversion H as [H1]; clear H.
+    + rewrite <- P. apply (end_session_pst' _ _ _ _ _ H1).
+    + subst; exact P.
+  - destruct (_ =? _); inversion H as [H1]; clear H.
+    + rewrite <- P. apply (end_session_pst' _ _ _ _ _ H1).
+    + subst; exact P.
+Qed.
+
+Lemma finish_spec c sv rp e evs sv' rp' evs' :
+  finish c sv rp e evs = Done sv' rp' evs' -> pst sv' = pst sv /\ rp' = Some rp.
+Proof.
+  unfold finish. destruct (is_fatal e).
+  - destruct (close_conn c sv) as [[sv1 ev1]|] eqn:E; [|discriminate].
+    intros H; inversion H; subst. split; [eapply close_conn_pst; eauto|reflexivity].
+  - intros H; inversion H; subst. auto.
+Qed.
+
+Lemma in_session_spec cf sv c x r k evs0 sv' rp evs :
+  in_session cf sv c x r k evs0 = Done sv' rp evs ->
+  exists s s1 status e sid,
+    nnth k (sessions sv) = Some s /\
+    handle cf (sessions sv) c r (upd_conns s (nadd c (sconns s))) = HOk s1 status e /\
+    pst sv' = nset k (sstate s1) (pst sv) /\
+    rp = Some (mkResp status true sid).
+Proof.
+  unfold in_session. destruct (nnth k (sessions sv)) as [s|] eqn:Ek; [|discriminate].
+  destruct (handle _ _ _ _ _) as [s1 status e| |] eqn:Eh; [|discriminate|discriminate].
+  intros H. exists s, s1, status, e.
+  match type of H with context [mkResp status true ?sid] => exists sid end.
+  split; [reflexivity|]. split; [exact Eh|].
+  destruct (negb (is_fatal e) && meth_eqb (rmeth r) Teardown) eqn:Etd.
+  - destruct (end_session k 1 _) as [sv3 evs1] eqn:Ee.
+    apply finish_spec in H. destruct H as [P ->]. split; [|reflexivity].
+    rewrite P, (end_session_pst' _ _ _ _ _ Ee), pst_set_conn.
+    unfold pst, set_sess; cbn [sessions]. now rewrite map_nset.
+  - apply finish_spec in H. destruct H as [P ->]. split; [|reflexivity].
+    rewrite P, pst_set_conn. unfold pst, set_sess; cbn [sessions]. now rewrite map_nset.
+Qed.
+
+(* ---------- which session a request is routed to ---------- *)
+Definition lookup (sv : server) (r : req) : option (N * session) :=
+  match rsess r with
+  | Some k => match nnth k (sessions sv) with
+              | Some s => if salive s then Some (k, s) else None
+              | None => None
+              end
+  | None => None
+  end.
+
+Definition target (cf : cfg) (sv : server) (r : req) : option N :=
+  match nnth (rconn r) (conns sv) with
+  | None => None
+  | Some x =>
+    if negb (copen x) then None else
+    if negb (rcseq r) then None else
+    match dispatch cf r with
+    | Direct _ _ => None
+    | InSess create =>
+      match csess x with
+      | Some k0 => if (match rsess r with Some k => negb (k =? k0) | None => false end) then None else Some k0
+      | None =>
+        match lookup sv r with
+        | Some (k, s) => if cip x =? saip s then Some k else None
+        | None => if create then Some (nlen (sessions sv)) else None
+        end
+      end
+    end
+  end.
+
+Definition status_of (rp : option resp) : N := match rp with Some x => rstatus x | None => 0 end.
+
+(* the RFC 2326 machine lifted to the vector of all sessions ever created *)
+Definition rfc_vec (v : list st) (t : option N) (m : meth) (status : N) : list st :=
+  match t with
+  | None => v
+  | Some k => match nnth k v with
+              | Some s0 => nset k (rfc_after s0 m status) v
+              | None => v ++ [rfc_after Initial m status]
+              end
+  end.
+
+Definition no_start_failure (cf : cfg) (sv : server) (r : req) : Prop :=
+  forall k s, target cf sv r = Some k -> nnth k (sessions sv) = Some s -> start_failure r s = false.
+
+Lemma start_failure_conns r s l : start_failure r (upd_conns s l) = start_failure r s.
+Proof. reflexivity. Qed.
+
+Theorem step_refines cf sv r sv' rp evs :
+  step cf sv r = Done sv' rp evs ->
+  no_start_failure cf sv r ->
+  pst sv' = rfc_vec (pst sv) (target cf sv r) (rmeth r) (status_of rp).
+Proof.
+  unfold no_start_failure. intros H NS. unfold target, lookup in *. unfold step in H.
+  destruct (nnth (rconn r) (conns sv)) as [x|]; [|inversion H; reflexivity].
+  destruct (copen x); cbn [negb] in *; [|inversion H; reflexivity].
+  destruct (ctcp x && _); [discriminate|].
+  destruct (rcseq r); cbn [negb] in *; [|apply finish_spec in H; destruct H as [-> _]; reflexivity].
+  destruct (dispatch cf r) as [status e|create]; [apply finish_spec in H; destruct H as [-> _]; reflexivity|].
+  assert (IS : forall sv0 k evs0,
+             in_session cf sv0 (rconn r) x r k evs0 = Done sv' rp evs ->
+             (forall s, nnth k (sessions sv0) = Some s -> start_failure r s = false) ->
+             exists s, nnth k (sessions sv0) = Some s /\
+             pst sv' = nset k (rfc_after (sstate s) (rmeth r) (status_of rp)) (pst sv0)).
+  { intros sv0 k evs0 Hi Hs. apply in_session_spec in Hi.
+    destruct Hi as (s & s1 & status & e & sid & Ek & Eh & P & ->). exists s. split; [exact Ek|].
+    rewrite P. cbn [status_of rstatus]. f_equal.
+    destruct (handle_state _ _ _ _ _ _ _ _ Eh) as [E|(F & _)]; [exact E|].
+    rewrite start_failure_conns, (Hs s Ek) in F. discriminate. }
+  destruct (csess x) as [k0|].
+  - destruct (match rsess r with Some k => negb (k =? k0) | None => false end).
+    + apply finish_spec in H; destruct H as [-> _]; reflexivity.
+    + apply IS in H; [|intros s Es; eapply NS; [reflexivity|exact Es]].
+      destruct H as (s & Es & ->). unfold rfc_vec, pst. now rewrite nnth_map, Es.
+  - destruct (match rsess r with
+              | Some k => match nnth k (sessions sv) with
+                          | Some s => if salive s then Some (k, s) else None
+                          | None => None
+                          end
+              | None => None
+              end) as [[k s]|] eqn:El.
+    + destruct (cip x =? saip s).
+      * apply IS in H; [|intros s0 Es; eapply NS; [reflexivity|exact Es]].
+        destruct H as (s0 & Es & ->). unfold rfc_vec, pst. now rewrite nnth_map, Es.
+      * apply finish_spec in H; destruct H as [-> _]; reflexivity.
+    + destruct create.
+      * apply IS in H.
+        -- destruct H as (s0 & Es & ->). cbn [sessions] in Es.
+           rewrite nnth_app_last in Es. inversion Es; subst s0.
+           unfold rfc_vec. unfold pst at 2. rewrite nnth_map, nnth_ge by lia. cbn [option_map].
+           unfold pst; cbn [sessions]. rewrite map_app. cbn [map new_session sstate].
+           rewrite <- (nlen_map sstate). apply nset_app_last.
+        -- intros s0 Es. cbn [sessions] in Es. rewrite nnth_app_last in Es. inversion Es.
+           unfold start_failure. cbn. destruct (meth_eqb (rmeth r) RecordM); reflexivity.
+      * apply finish_spec in H; destruct H as [-> _]; reflexivity.
+Qed.
+
+(* ---------- findFreeChannelPair terminates: each media blocks at most two candidates ---------- *)
+Definition cw (i : N) (m : media) : nat :=
+  if i + 1 <=? mchan m then 2%nat else if i <=? mchan m + 1 then 1%nat else 0%nat.
+Fixpoint cM (i : N) (ms : list media) : nat :=
+  match ms with [] => 0%nat | m :: t => (cw i m + cM i t)%nat end.
+
+Lemma cM_step i ms : (cM (i + 2) ms <= cM i ms)%nat.
+Proof.
+  induction ms as [|m t IH]; cbn [cM]; [lia|]. unfold cw.
+  destruct (i + 2 + 1 <=? mchan m) eqn:A, (i + 1 <=? mchan m) eqn:B,
+           (i + 2 <=? mchan m + 1) eqn:C, (i <=? mchan m + 1) eqn:D; lia.
+Qed.
+Lemma cM_dec i ms : chan_in_use i ms = true -> (cM (i + 2) ms < cM i ms)%nat.
+Proof.
+  unfold chan_in_use. induction ms as [|m t IH]; cbn [cM existsb]; [discriminate|].
+  intros H. apply orb_true_iff in H. destruct H as [H|H].
+  - pose proof (cM_step i t). unfold cw.
+    destruct (i + 2 + 1 <=? mchan m) eqn:A, (i + 1 <=? mchan m) eqn:B,
+             (i + 2 <=? mchan m + 1) eqn:C, (i <=? mchan m + 1) eqn:D; lia.
+  - specialize (IH H). pose proof (cM_step i [m]) as S1. cbn [cM] in S1. lia.
+Qed.
+Lemma cM_bound ms : (cM 0 ms <= length ms + length ms)%nat.
+Proof.
+  induction ms as [|m t IH]; cbn [cM length]; [lia|]. unfold cw.
+  destruct (0 + 1 <=? mchan m), (0 <=? mchan m + 1); lia.
+Qed.
+Lemma find_free_some fuel i ms : (cM i ms < fuel)%nat -> find_free fuel i ms <> None.
+Proof.
+  revert i; induction fuel as [|f IH]; intros i H; [lia|]. cbn [find_free].
+  destruct (chan_in_use i ms) eqn:E; [|discriminate].
+  apply IH. apply cM_dec in E. lia.
+Qed.
+Lemma find_free_model ms : find_free (S (length ms + length ms)) 0 ms <> None.
+Proof. apply find_free_some. pose proof (cM_bound ms). lia. Qed.
+
+(* ---------- per-session invariant: the nil-able fields are set whenever the code dereferences them ---------- *)
+Definition sess_ok (s : session) : Prop :=
+  (streaming s = true -> stransport s <> None) /\
+  (sstate s = PrePlay -> stransport s <> None) /\
+  ((sstate s = PreRecord \/ sstate s = Record) -> exists n, sannounced s = Some n /\ 0 < n) /\
+  (smedias s <> [] -> stransport s <> None) /\
+  (streaming s = true -> stransport s <> Some MC -> swriter s = true) /\
+  (forall c, stcpconn s = Some c -> streaming s = true /\ stransport s = Some TCP) /\
+  ((sstate s = PreRecord \/ sstate s = Record) -> stransport s <> Some MC) /\
+  (sstate s = Initial -> stransport s = None).
+
+Lemma sess_ok_new c ip : sess_ok (new_session c ip).
+Proof. unfold sess_ok, new_session, streaming; cbn. repeat split; intros; try discriminate; try congruence; destruct H; discriminate. Qed.
+
+Lemma sess_ok_conns s l : sess_ok s -> sess_ok (upd_conns s l).
+Proof. exact (fun H => H). Qed.
+
+Lemma nlen_pos_nonnil {A} (l : list A) n : (nlen l =? n) = true -> 0 < n -> l <> [].
+Proof. intros H P E; subst l. cbn [nlen] in H. lia. Qed.
+
+Lemma app_nonnil {A} (l : list A) x : l ++ [x] <> [].
+Proof. destruct l; discriminate. Qed.
+
+Lemma handle_ok cf o c r s s' status e :
+  sess_ok s -> handle cf o c r s = HOk s' status e -> sess_ok s'.
+Proof.
+  unfold handle, fail400, destroy_writer. intros OK H.
+  destruct (pin_reject c s); [inversion H; subst; exact OK|].
+  destruct OK as (I1 & I1' & I2 & I4 & I3 & I6 & I7 & I8).
+  destruct (rmeth r) eqn:Em; destruct (sstate s) eqn:Es; unfold streaming in *; rewrite ?Es in *;
+    cbn [st_eqb negb andb orb] in H.
+  all: brk H; try discriminate.
+  all: cbn [negb] in *; rewrite ?orb_true_r, ?orb_false_r, ?andb_true_r, ?andb_false_r in *; try discriminate.
+  all: inversion H; subst; clear H.
+  all: unfold sess_ok, streaming; cbn; rewrite ?Es.
+  all: repeat split; intros; try discriminate; try congruence; auto using app_nonnil.
+  all: try (match goal with H : _ \/ _ |- _ => destruct H; discriminate end).
+  all: try (eexists; split; [reflexivity|]; lia).
+  all: try (apply I2; auto; fail).
+  all: try (match goal with H : ?x = Some _ |- _ => specialize (I6 _ H); destruct I6; discriminate end).
+  all: try (match goal with H : stcpconn _ = Some _ |- _ => destruct (I6 _ H); assumption end).
+  all: try (apply I2; auto; fail).
+  all: try (apply I3; auto; congruence).
+  all: try (match goal with E : sannounced _ = Some _ |- _ => rewrite E end; apply I2; auto; fail).
+  all: try (exfalso; apply I7; auto; fail).
+  all: try (specialize (I8 eq_refl); congruence).
+  all: try (match goal with p : proto |- Some ?p <> Some MC => destruct p; cbn in *; congruence end).
+  all: try (apply I7; auto; fail).
+  all: try (match goal with E : stransport _ = Some _ |- _ => rewrite E end; apply I7; auto; fail).
+Qed.
+
+Lemma handle_total cf o c r s :
+  sess_ok s -> exists s' status e, handle cf o c r s = HOk s' status e.
+Proof.
+  intros OK.
+  destruct (handle cf o c r s) as [s' status e| |] eqn:H; [eauto| |]; exfalso.
+  - (* HPanic *)
+    unfold handle, fail400, destroy_writer in H.
+    destruct (pin_reject c s); [discriminate|].
+    destruct OK as (I1 & I1' & I2 & I4 & I3 & I6 & I7 & I8).
+    destruct (rmeth r) eqn:Em; destruct (sstate s) eqn:Es; unfold streaming in *; rewrite ?Es in *;
+      cbn [st_eqb negb andb orb] in H.
+    all: brk H; try discriminate.
+    all: cbn [negb] in *; rewrite ?orb_true_r, ?orb_false_r, ?andb_true_r, ?andb_false_r in *; try discriminate.
+    all: try (now apply I1).
+    all: try (now apply I1').
+    all: try (destruct I2 as (n0 & A & B); [auto|]; congruence).
+    all: try (destruct I2 as (n0 & A & B); [auto|]; rewrite A in *; discriminate).
+    all: try (match goal with E2 : proto_eqb ?p MC = false |- _ =>
+                assert (false = true) by (apply I3; [reflexivity|destruct p; cbn in *; congruence]); discriminate end).
+    all: try (match goal with E2 : negb (nlen (smedias ?s0) =? ?n) = false |- _ =>
+                apply negb_false_iff in E2; destruct I2 as (n0 & A & B); [auto|]; inversion A; subst n0;
+                apply (I4 (nlen_pos_nonnil _ _ E2 B)); reflexivity end).
+  - (* HHang *)
+    unfold handle, fail400, destroy_writer in H.
+    destruct (pin_reject c s); [discriminate|].
+    destruct (rmeth r) eqn:Em; destruct (sstate s) eqn:Es; unfold streaming in *; rewrite ?Es in *;
+      cbn [st_eqb negb andb orb] in H.
+    all: brk H; try discriminate.
+    all: match goal with E : match ?p1 with UDP => _ | TCP => _ | MC => _ end = None |- _ =>
+           destruct p1; try discriminate; destruct (ril r) as [[? ?]|]; try discriminate;
+           now apply find_free_model in E end.
+Qed.
